@@ -7,6 +7,8 @@ hs = []
 
 def add(name, obl, inst, tier="quick", shape=None, **kw):
     kw.setdefault("mem_gb", 8)
+    if tier == "quick":
+        kw.setdefault("weight_gb", 4)   # measured resident size of the quick instances: <= 3.5 GB (the cap stays 8 GB)
     hs.append(H(name, SC, inst, obl, profile="R", tier=tier, shape=shape or {}, timeout=1200, **kw))
 
 
